@@ -103,8 +103,10 @@ class Mut:
             return self._exe[flavor]
 
     def cpp_copy(self, proto: str, infmt: str, outfmt: str, data: bytes, flavor: str = "plain",
-                 bufs=None, version: str | None = None, skip_close=False, cpu_s: int = 20):
+                 bufs=None, version: str | None = None, skip_close=False, cpu_s: int = 20, empty_batches=False):
         args = [proto, infmt, outfmt]
+        if empty_batches:
+            args.append("--empty-batches")
         if bufs:
             args += ["--bufs", ",".join(map(str, bufs))]
         if version:
